@@ -11,6 +11,10 @@ const (
 	msgTypeObjectOrArray string = `object/array`
 )
 
-var emptyEntity = struct{}{}
+// emptyEntityType is private to this package, so no value found in a source
+// document (not even a user's struct{}{}) can be mistaken for the marker.
+type emptyEntityType struct{}
+
+var emptyEntity = emptyEntityType{}
 var emptyList = []interface{}{emptyEntity}
 var fullList = []interface{}{true}
